@@ -178,7 +178,9 @@ fn truth(data: &[i64], order: u32) -> Truth {
 
 fn check_type<T: MomT>(data: &[i64], xs: &[f64], e: &Embedding, t: &Truth, cfg: &Value, by_ref: bool, rep: &mut Report, spread: &mut Vec<Vec<f64>>) {
     let (min_len, max_len) = (cfg["min_len"].as_u64().unwrap_or(1) as usize, cfg["max_len"].as_u64().map(|x| x as usize).unwrap_or(usize::MAX));
-    let got: T = if max_len != usize::MAX || min_len != 1 {
+    let got: T = if let Some(layout) = cfg["adaptor"].as_u64() {
+        T::par_collect_adaptor(xs, layout as usize, max_len, by_ref)
+    } else if max_len != usize::MAX || min_len != 1 {
         T::par_collect_limits(xs, min_len, max_len, by_ref)
     } else if by_ref {
         T::par_collect_ref(xs)
@@ -274,7 +276,16 @@ fn check_type<T: MomT>(data: &[i64], xs: &[f64], e: &Embedding, t: &Truth, cfg: 
 }
 
 fn check_minmax(xs: &[f64], e: &Embedding, cfg: &Value, by_ref: bool, rep: &mut Report) {
-    let (mn, mx): (Min, Max) = if by_ref { (xs.par_iter().collect(), xs.par_iter().collect()) } else { (xs.to_vec().into_par_iter().collect(), xs.to_vec().into_par_iter().collect()) };
+    let (mn, mx): (Min, Max) = if let Some(layout) = cfg["adaptor"].as_u64() {
+        // NaN markers are ignored by Min / Max anyway: filter on a finite marker instead
+        let marker = 1.0e300;
+        let padded: Vec<f64> = crate::types::padded_input(xs, layout as usize).into_iter().map(|x| if x.is_nan() { marker } else { x }).collect();
+        if by_ref {
+            (padded.par_iter().filter(|x| **x != marker).collect(), padded.par_iter().filter(|x| **x != marker).collect())
+        } else {
+            (padded.clone().into_par_iter().filter(|x| *x != marker).collect(), padded.into_par_iter().filter(|x| *x != marker).collect())
+        }
+    } else if by_ref { (xs.par_iter().collect(), xs.par_iter().collect()) } else { (xs.to_vec().into_par_iter().collect(), xs.to_vec().into_par_iter().collect()) };
     let smn: Min = xs.iter().collect();
     let smx: Max = xs.iter().collect();
     rep.evaluations += 2;
@@ -336,6 +347,30 @@ pub fn direct_rayon(seed: u64, max_n: usize, reps: usize, rep: &mut Report) {
                     }
                     if rep.samples.len() < 3 && n == 17 {
                         rep.sample(cfg);
+                    }
+                }
+                // length-changing adaptors: leaves (and whole subtrees) of the fold without items
+                if n <= 10_000 && ename != "E3" {
+                    for layout in 0..4usize {
+                        for (by_ref, max_len) in [(true, usize::MAX), (false, 2usize), (true, 64usize)] {
+                            let meaning = ["filter, padding right", "filter, padding left", "filter, sparse", "chain(empty)"][layout];
+                            let cfg = json!({"embedding": ename, "n": n, "threads": threads, "by_ref": by_ref, "seed": seed, "adaptor": layout,
+                                             "adaptor_meaning": meaning,
+                                             "max_len": if max_len == usize::MAX { Value::Null } else { json!(max_len) }, "data_prefix": &data[..data.len().min(12)]});
+                            rep.behaviours += 1;
+                            rep.nontrivial.insert(hash_str(&cfg.to_string()));
+                            let guarded = std::panic::catch_unwind(std::panic::AssertUnwindSafe(|| p.install(|| {
+                                let rep = &mut *rep;
+                                check_type::<average::Mean>(&data, &xs, &e, &t, &cfg, by_ref, rep, &mut spread);
+                                check_type::<average::Variance>(&data, &xs, &e, &t, &cfg, by_ref, rep, &mut spread);
+                                check_type::<average::Kurtosis>(&data, &xs, &e, &t, &cfg, by_ref, rep, &mut spread);
+                                check_type::<average::Moments4>(&data, &xs, &e, &t, &cfg, by_ref, rep, &mut spread);
+                                check_minmax(&xs, &e, &cfg, by_ref, rep);
+                            })));
+                            if guarded.is_err() {
+                                viol(rep, "collect", &e, "panic", "parallel collection through an adaptor panicked".into(), cfg.clone());
+                            }
+                        }
                     }
                 }
             }
